@@ -16,6 +16,8 @@ import (
 	"sync"
 	"testing"
 
+	"github.com/getkin/kin-openapi/openapi2"
+	"github.com/getkin/kin-openapi/openapi2conv"
 	"github.com/getkin/kin-openapi/openapi3"
 	"github.com/getkin/kin-openapi/openapi3filter"
 	"github.com/getkin/kin-openapi/routers"
@@ -50,6 +52,8 @@ type caseRec struct {
 type docs struct {
 	doc    *openapi3.T
 	router routers.Router
+	// the OpenAPI 2 document converted to version 3 (nil when the converter cannot handle it)
+	router2 routers.Router
 }
 
 func profile() gen.Profile {
@@ -152,7 +156,31 @@ func loadDocs(b *rt.Built) (*docs, error) {
 	if err != nil {
 		return nil, err
 	}
-	return &docs{doc, r}, nil
+	dc := &docs{doc: doc, router: r}
+	// OpenAPI 2: converted, examples removed; any problem on the way means "not compared"
+	// (experimental, off by default: the property speaks about the OpenAPI 3 document and the 2->3
+	// converter adds verdicts of its own; enable with VERIF_C14_V2=1)
+	if j2, err := os.ReadFile(filepath.Join(b.Run.Dir, "gen", "http", "openapi.json")); err == nil && os.Getenv("VERIF_C14_V2") != "" {
+		var t2 any
+		var d2 openapi2.T
+		if json.Unmarshal(j2, &t2) == nil {
+			j2, _ = json.Marshal(strip(t2, false))
+			if json.Unmarshal(j2, &d2) == nil {
+				if v3, err := openapi2conv.ToV3(&d2); err == nil {
+					v3.Servers = nil
+					if v3.Validate(context.Background(), openapi3.DisableExamplesValidation()) == nil {
+						if r2, err := legacy.NewRouter(v3); err == nil {
+							dc.router2 = r2
+						}
+					}
+				}
+			}
+		}
+	}
+	if dc.router2 == nil && os.Getenv("VERIF_C14_V2") != "" {
+		stats.Class("openapi2-not-compared")
+	}
+	return dc, nil
 }
 
 func checkMethod(t *testing.T, b *rt.Built, dc *docs, s *m.Service, meth *m.Method) bool {
@@ -364,6 +392,40 @@ func runCase(b *rt.Built, dc *docs, s *m.Service, meth *m.Method, c *caseRec) st
 			stats.Class("not-compared:format-or-pattern")
 		} else {
 			return fmt.Sprintf("the server rejects (%d %s) a request that conforms to the OpenAPI 3 document\n  request: %s %s body %q", obs.Response.Status, trunc(string(obs.Response.Body)), ro.Method, ro.URL, trunc(string(ro.Body)))
+		}
+	}
+	// the OpenAPI 2 document (converted) must give the same request verdict as the OpenAPI 3 one gave
+	if dc.router2 != nil && (serverAccepted && docErr == nil || serverRejected && docErr != nil) {
+		req2, _ := http.NewRequest(ro.Method, "http://localhost"+pathAndQuery(ro), bytes.NewReader(reqBody))
+		for k, vs := range ro.Header {
+			for _, v := range vs {
+				req2.Header.Add(k, v)
+			}
+		}
+		if route2, pp2, err := dc.router2.FindRoute(req2); err == nil {
+			in2 := &openapi3filter.RequestValidationInput{Request: req2, PathParams: pp2, Route: route2,
+				Options: &openapi3filter.Options{AuthenticationFunc: openapi3filter.NoopAuthenticationFunc, SkipSettingDefaults: true}}
+			err2 := openapi3filter.ValidateRequest(context.Background(), in2)
+			switch {
+			case err2 != nil && kinLimit(err2) != "":
+				stats.Class("not-compared:" + kinLimit(err2))
+			case serverAccepted && err2 != nil:
+				if strings.Contains(err2.Error(), "in header has an error") && headerArrayNamed(d, meth, err2.Error()) {
+					stats.Class("not-compared:header-array")
+				} else if strings.Contains(err2.Error(), `the format "int32"`) || strings.Contains(err2.Error(), `the format "int64"`) || strings.Contains(err2.Error(), "value out of range") {
+					stats.Class("known-finding-hit:C07-uint32-documented-as-int32")
+				} else {
+					return fmt.Sprintf("the server (and the OpenAPI 3 document) accept a request the OpenAPI 2 document forbids: %s\n  request: %s %s body %q", trunc(err2.Error()), ro.Method, ro.URL, trunc(string(ro.Body)))
+				}
+			case serverRejected && err2 == nil:
+				if c.Kind == "mutant" && (c.Fault.Rule == "invalid_format" || c.Fault.Rule == "invalid_pattern") {
+					stats.Class("not-compared:format-or-pattern")
+				} else {
+					return fmt.Sprintf("the server (and the OpenAPI 3 document) reject a request that conforms to the OpenAPI 2 document\n  request: %s %s body %q (server: %s)", ro.Method, ro.URL, trunc(string(ro.Body)), trunc(string(obs.Response.Body)))
+				}
+			default:
+				stats.Class("openapi2-agrees")
+			}
 		}
 	}
 	// responses the server produces conform to the documented schema for their status
